@@ -256,7 +256,7 @@ func c14Child() {
 			readAll(300 * time.Millisecond) // banner
 			for _, cmd := range c.Cmds {
 				cn.Write([]byte(fix(cmd)))
-				r := readAll(1500 * time.Millisecond)
+				r := readAll(4000 * time.Millisecond)
 				r = strings.Replace(r, "inspecting status is fine, but making changes on-the-fly is an experimental feature\n", "", -1)
 				if len(r) > 300 {
 					r = r[:300]
